@@ -8,10 +8,29 @@ import (
 	"ti/lexer"
 )
 
+// ErrUnexpectedEOF is raised as a panic when an evaluator keeps asking for
+// tokens long after the input has ended (a construct that is never closed);
+// main recovers it and reports it as a diagnostic instead of spinning.
+var ErrUnexpectedEOF = errors.New("unexpected end of input")
+
+const maxEOSReads = 1000
+
+func (p *Parser) countEOS() {
+	p.eosReads++
+
+	if p.eosReads > maxEOSReads {
+		panic(ErrUnexpectedEOF)
+	}
+}
+
 func (p *Parser) getToken() {
 	if p.ungetFlg {
 		p.ungetFlg = false
 		p.Lexer.IsSpace = p.Lexer.IsSpacePrev
+
+		if p.token == base.EOS {
+			p.countEOS()
+		}
 
 		return
 	}
@@ -31,6 +50,7 @@ func (p *Parser) getToken() {
 	}
 
 	p.token = base.EOS
+	p.countEOS()
 }
 
 func (p *Parser) Unget() {
